@@ -172,4 +172,83 @@ Proof.
     + intros Hin. destruct (l_backlog _ _ C _ Hin) as (x0 & G0 & P0).
       assert (x0 = x) by congruence. subst x0. cbn. exact P0.
 Qed.
+
+Lemma deliver_close s i t x :
+  wire_to st s = MClose i :: t -> get i (streams (ep st s)) = Some x ->
+  exists e', deliver s (ep st s) (MClose i) = DOk e' /\ Inv (set_ep (set_wire_to st s t) s e').
+Proof.
+  intros W G.
+  destruct (range_ok st HI s _ _ i W eq_refl eq_refl) as (R1 & R2 & R3).
+  assert (NO : has_open i (wire_to st (other s)) = false).
+  { apply no_open_back. rewrite W. cbn. now rewrite N.eqb_refl. }
+  destruct (inv_elim st s HI) as (A & B & C & D). rewrite W in *.
+  pose proof (d_per _ _ _ _ _ A i) as PA. pose proof (d_per _ _ _ _ _ B i) as PB.
+  pose proof (get_streams_local _ _ _ _ C G) as Hx. pose proof (vw_of _ _ _ G) as Hv.
+  destruct PB as []. destruct PA as [a_incpos a_ks a_kr a_openp a_accp a_lastc a_csent a_conce a_rc
+    a_cwlast a_cwsent a_cwonce a_rcw a_pre a_zero a_estr a_ests a_sum].
+  rewrite Hv in *. cons_nrm. vsimp.
+  assert (Erc : rc x = false).
+  { destruct (rc x) eqn:Q; auto. destruct (d_rc _ eq_refl eq_refl) as (? & _). discriminate. }
+  unfold deliver. rewrite R1, R2, R3, G, Erc.
+  eexists; split; [reflexivity|].
+  assert (NA : has_any i t = false) by (now apply negb_true_iff in d_lastc).
+  destruct (no_any _ _ NA) as (Y1 & Y2 & Y3 & Y4 & Y5 & Y6).
+  destruct (no_any_order _ _ NA) as (O1 & O2 & O3).
+  apply (inv_intro _ s); open_pop s; auto.
+  - eapply (dir_pop_b i s (ep st s) (ep st (other s)) (wire_to st (other s)) (MClose i) t);
+      [exact A|reflexivity|reflexivity|cbn; lia| |others_pop i].
+    constructor; nrm; vsimp; rewrite ?NO in *; fin2.
+    + ks_old a_ks. left; discriminate.
+    + ks_old a_kr. left; discriminate.
+    + estr_old a_estr.
+  - eapply (dir_pop_a i); try exact B; auto.
+    + pose proof (d_ids _ _ _ _ _ B) as Hid. cbn [ids_ok mid] in Hid. rewrite !andb_true_iff in Hid. tauto.
+    + constructor; nrm; vsimp; rewrite ?NA, ?Y1, ?Y2, ?Y3, ?Y4, ?Y5, ?Y6, ?O1, ?O2, ?O3 in *; fin2.
+    + others_pop i.
+  - apply local_put; auto.
+    + sl_tac Hx; sl_fin.
+    + intros Hin. destruct (l_backlog _ _ C _ Hin) as (x0 & G0 & P0).
+      assert (x0 = x) by congruence. subst x0. cbn. exact P0.
+Qed.
+
+Lemma deliver_accept s i v t x :
+  wire_to st s = MAccept i v :: t -> get i (streams (ep st s)) = Some x ->
+  exists e', deliver s (ep st s) (MAccept i v) = DOk e' /\ Inv (set_ep (set_wire_to st s t) s e').
+Proof.
+  intros W G.
+  destruct (range_ok st HI s _ _ i W eq_refl eq_refl) as (R1 & R2 & R3).
+  assert (NO : has_open i (wire_to st (other s)) = false).
+  { apply no_open_back. rewrite W. cbn. now rewrite N.eqb_refl. }
+  destruct (inv_elim st s HI) as (A & B & C & D). rewrite W in *.
+  pose proof (d_per _ _ _ _ _ A i) as PA. pose proof (d_per _ _ _ _ _ B i) as PB.
+  pose proof (get_streams_local _ _ _ _ C G) as Hx. pose proof (vw_of _ _ _ G) as Hv.
+  pose proof (d_vals _ _ _ _ _ B) as Hv0. cbn [forallb val_ok] in Hv0.
+  apply andb_true_iff in Hv0 as [Hv0 _]. apply andb_true_iff in Hv0 as [Hv0 M'].
+  apply N.eqb_eq in Hv0. subst v. apply negb_true_iff in M'.
+  assert (M : mine s i = true).
+  { rewrite <- (other_other s), mine_other, M'. reflexivity. }
+  destruct PB as []. destruct PA as [a_incpos a_ks a_kr a_openp a_accp a_lastc a_csent a_conce a_rc
+    a_cwlast a_cwsent a_cwonce a_rcw a_pre a_zero a_estr a_ests a_sum].
+  rewrite Hv in *. cons_nrm. vsimp.
+  destruct (d_accp eq_refl) as (AF & SE & RE).
+  destruct (RE _ eq_refl) as (Eest & Erc). cbn in Eest, Erc.
+  apply negb_true_iff in AF.
+  unfold deliver. rewrite R1, M, G, Eest, Erc. cbn [negb]. rewrite R3.
+  eexists; split; [reflexivity|].
+  apply (inv_intro _ s); open_pop s; auto.
+  - eapply (dir_pop_b i s (ep st s) (ep st (other s)) (wire_to st (other s)) (MAccept i _) t);
+      [exact A|reflexivity|reflexivity|cbn; lia| |others_pop i].
+    destruct (a_zero _ M eq_refl Eest) as (Z1 & Z2 & Z3 & Z4 & Z5 & Z6 & Z7 & Z8).
+    constructor; nrm; vsimp; rewrite ?NO, ?M, ?M' in *; fin2.
+    + ks_old a_ks. left; discriminate.
+    + rewrite (dataB_zero _ _ Z1), Z6, (incB_zero _ _ Z8). unfold getN. rewrite Z7. lia.
+  - eapply (dir_pop_a i); try exact B; auto.
+    + pose proof (d_ids _ _ _ _ _ B) as Hid. cbn [ids_ok mid] in Hid. rewrite !andb_true_iff in Hid. tauto.
+    + constructor; nrm; vsimp; rewrite ?AF, ?M, ?M' in *; fin2.
+    + others_pop i.
+  - apply local_put; auto.
+    + sl_tac Hx; sl_fin.
+    + intros Hin. destruct (l_backlog _ _ C _ Hin) as (x0 & G0 & P0).
+      assert (x0 = x) by congruence. subst x0. cbn. exact P0.
+Qed.
 End G.
